@@ -200,6 +200,8 @@ class PostgreSQLQueryBuilder(QueryBuilder):
         else:
             querystring = super().get_sql(ctx)
         if self._returns:
-            returning_ctx = ctx.copy(with_namespace=self._update_table and self.from_)
+            returning_ctx = ctx.copy(
+                with_namespace=self._update_table and self.from_, subquery=False, subcriterion=False
+            )
             querystring += self._returning_sql(returning_ctx)
         return querystring
